@@ -6,7 +6,7 @@ import math
 RULE = ("random pairs of planar segments and polylines (1..4 segments each, float data): transversal crossings strictly inside segments "
         "(several per pair), disjoint pairs with overlapping and with disjoint bounding boxes; a few degree-2/3 and rational pairs (soundness "
         "conditions only).  Non-trivial: more than one segment on a side or at least one crossing; distinct = distinct (A, B)."
-        " Also: single-span operands that clean() could reduce; the same pairs translated far from the origin (offsets 1e4..2.5e5); weighted polylines (degree 1, positive weights: same crossing points).")
+        " Also: single-span operands that clean() could reduce; the same pairs translated far from the origin (offsets 1e4..2.5e5); weighted polylines (degree 1, positive weights: same crossing points); the planar figures embedded in planes of 3-space.")
 EXPLANATION = ("L3: the exact crossing oracle (`geom.cross`, Cramer over Q on every pair of segments) lists all meeting pairs and classifies the "
                "pair as transversal / touching / degenerate; every returned pair is re-evaluated (|A(t)-B(u)| <= 1e-6, inside both intervals, no "
                "duplicates), disjoint curves must give the empty tuple, and every transversal crossing must be present.")
@@ -20,14 +20,28 @@ def run_case(ctx, case):
     B = (c["B"]["U"], [tuple(q) for q in c["B"]["P"]], c["B"].get("W"))
     rec.count("label", c.get("label", "?"))
 
+    lift = c.get("lift")        # an injective affine map R^2 -> R^3: the same figure in a plane of space, same meeting parameters
+
+    def up(q):
+        if lift is None:
+            return q
+        (m, off) = lift
+        return tuple(sum(m[r][k] * q[k] for k in range(2)) + off[r] for r in range(3))
+
     def mk(X):
-        return Curve([float(x) for x in X[0]], [np.array([float(x) for x in q]) for q in X[1]], None if X[2] is None else [float(w) for w in X[2]])
+        return Curve([float(x) for x in X[0]], [np.array([float(x) for x in up(q)]) for q in X[1]], None if X[2] is None else [float(w) for w in X[2]])
     ca, cb = mk(A), mk(B)
     sa, sb = curve_state(ca), curve_state(cb)
+    if lift is not None:
+        # the exact oracle works on the planar figure (float images of the planar data)
+        pa_ = curve_state(Curve([float(x) for x in A[0]], [np.array([float(x) for x in q]) for q in A[1]]))
+        pb_ = curve_state(Curve([float(x) for x in B[0]], [np.array([float(x) for x in q]) for q in B[1]]))
+    else:
+        pa_, pb_ = sa, sb
     poly = kv_info(A[0])[0] == 1 and kv_info(B[0])[0] == 1 and A[2] is None and B[2] is None
     expected = None
     if poly:
-        o = drv.call("geom.cross", list(sa[0]), [list(q) for q in sa[1]], None, list(sb[0]), [list(q) for q in sb[1]], None)
+        o = drv.call("geom.cross", list(pa_[0]), [list(q) for q in pa_[1]], None, list(pb_[0]), [list(q) for q in pb_[1]], None)
         l3(rec, "geom.cross")
         degenerate, touching, pairs = o[1]
         expected = [(float(t), float(u)) for t, u in pairs]
@@ -125,6 +139,15 @@ def run(ctx):
     def run_case_far(ctx_, case_):
         run_case_plain(ctx_, case_)
         c_ = de(case_)
+        if c_.get("label") in ("cross", "zigzag", "mixed", "doublepoint") and rng.random() < 0.35:
+            # the same polylines in a plane of 3-space (vertical planes y = a x + b among them: parallel xy-projections of the tangents)
+            a_, b_ = F(rng.randint(-2, 3)), F(rng.randint(-2, 2))
+            m_ = rng.choice([[[F(1), F(0)], [a_, F(0)], [F(0), F(1)]],            # (s, t) -> (s, a s + b, t)
+                             [[F(1), F(0)], [F(0), F(1)], [a_, F(1)]],            # a slanted plane
+                             [[F(0), F(1)], [F(1), F(0)], [F(1), F(1)]]])
+            off_ = [F(0), b_, F(rng.randint(-1, 1))]
+            run_case_plain(ctx_, ser(dict(kind="pair", label=c_["label"] + "-3d", A=dict(U=c_["A"]["U"], P=[tuple(q) for q in c_["A"]["P"]], W=None),
+                                          B=dict(U=c_["B"]["U"], P=[tuple(q) for q in c_["B"]["P"]], W=None), lift=[m_, off_])))
         if c_.get("label") in ("cross", "zigzag", "mixed", "doublepoint", "farboxes") and rng.random() < 0.3:
             wts = lambda C: [F(rng.choice([1, 2, 3, 5, 8]), rng.choice([1, 2, 3])) for _ in C["P"]]       # noqa: E731
             Aw = dict(U=c_["A"]["U"], P=[tuple(q) for q in c_["A"]["P"]], W=wts(c_["A"]))
